@@ -266,6 +266,10 @@ def run(tier):
     rep.floor("pass-1 item paths", len(rows1), 40)
     import rules_C02
     rules_C02.byte_operand_dropped(P, rep, "C06.byte|operand", "`.eseg / .byte COUNT` with a constant contributes no bytes at all to the EEPROM image and does not move what follows")
+    # ---- quoted texts reach the operand as written also through a macro body (rule shared with C09: the macro pipeline copies body lines whole)
+    if "builder::pass0::macro_expand" in P.body:
+        import rules_C09
+        rules_C09.body_text_verbatim(P, rep, prefix="C06.string|macro-body-verbatim")
     return rep
 
 
